@@ -4,6 +4,7 @@ Property theorems only; helper lemmas live in GoJson.Lemmas.Buf*.
 -/
 import GoJson.Lemmas.BufSound3
 import GoJson.Lemmas.BufCompl2
+import GoJson.Lemmas.Skip1
 
 namespace GoJson.Props.C05
 open GoJson GoJson.Spec GoJson.Model.BufDec
@@ -71,6 +72,28 @@ theorem ctl_in_string_rejected (range : Bool) (pre post : List UInt8) (c : UInt8
   simp [stringTail, hs]
 
 example : accepts true [34, 97, 1, 98, 34] = false := by decide +kernel
+
+/-- **What the destination ignores is validated too.** A destination that passes over the whole
+document (skipValue / skipObject / skipArray / skipString, then the trailing-data check) accepts a
+byte string exactly when it is a text of the same grammar — no float64 range condition, which
+belongs to a float destination and not to the text. Finding D07 (passed-over parts were only
+bracket-counted) is repaired; `Lemmas/Skip1.sim` is the statement for every nested position: the
+element and member loops of the skip functions accept exactly what the decoders' loops accept. -/
+theorem skipped_accepts_iff (b : List UInt8) :
+    Model.Skip.skipAccepts b = true ↔ ValidText rxCurrent false maxDepth b := by
+  rw [Model.Skip.skipAccepts_eq]
+  exact accepts_iff false b
+
+/-- in every nested position: an array / object body is passed over exactly when the decoder for
+`interface{}` decodes it, with the same extent -/
+theorem skipped_loops_agree (fuel d : Nat) (s rest : List UInt8) :
+    (elements false fuel d s = .ok rest ↔ Model.Skip.skipElems fuel d s = .ok rest) ∧
+    (members false fuel d s = .ok rest ↔ Model.Skip.skipMembers fuel d s = .ok rest) :=
+  ⟨(Model.Skip.sim fuel).2.2.1 d s rest, (Model.Skip.sim fuel).2.2.2 d s rest⟩
+
+example : Model.Skip.skipAccepts "{\"x\":[1,,]}".toUTF8.toList = false := by decide +kernel
+example : Model.Skip.skipAccepts "{\"x\":[tru]}".toUTF8.toList = false := by decide +kernel
+example : Model.Skip.skipAccepts "{\"x\":[1e999, \"\\u00e9\"]}".toUTF8.toList = true := by decide +kernel
 
 /-- non-vacuity: concrete verdicts computed by the kernel -/
 example : accepts true "[1, {\"a\": null}, \"x\"] ".toUTF8.toList = true := by decide +kernel
